@@ -140,11 +140,29 @@ func (fs *Store) AddMessage(m storage.Message) (id string, err error) {
 	fm.Fto = m.To()
 	fm.Fsize = size
 	fm.Fsubject = m.Subject()
+	previous := mb.messages
 	mb.messages = append(mb.messages, fm)
+	// Drop the oldest messages over messageCap in the same index update, so that the mailbox
+	// goes from its old content to its new content in one step.
+	var evicted []*Message
+	if fs.messageCap > 0 && len(mb.messages) > fs.messageCap {
+		n := len(mb.messages) - fs.messageCap
+		log.Info().Str("module", "storage").Str("mailbox", mb.name).Msg("Mailbox over message cap")
+		evicted = append(evicted, mb.messages[:n]...)
+		mb.messages = append([]*Message(nil), mb.messages[n:]...)
+	}
 	if err := mb.writeIndex(); err != nil {
 		// Try to remove the file.
 		_ = os.Remove(fm.rawPath())
+		mb.messages = previous
 		return "", err
+	}
+	for _, old := range evicted {
+		if err := os.Remove(old.rawPath()); err != nil {
+			log.Error().Str("module", "storage").Str("mailbox", mb.name).Str("id", old.ID()).
+				Err(err).Msg("Unable to delete message")
+		}
+		fs.extHost.Events.AfterMessageDeleted.Emit(message.MakeMetadata(old))
 	}
 
 	return fm.Fid, nil
